@@ -4,3 +4,4 @@ Definition k_flow_universal_tag : pfun :=
      pf_body := [
     SReturn (PCall "ASN1Tag/tag_class,tag_number,is_constructed" [(PName "TagClass.UNIVERSAL"); (PName "number"); (PName "is_constructed")])
   ] |}.
+Definition k_flow_universal_tag_defaults : list (string * pexp) := [("is_constructed", (PBool false))].
